@@ -290,6 +290,14 @@ def total(x):
     REC.hit("total", x)
     return report(x) + %(const)d
 
+@m.memento_function
+def viareg(x):
+    # (reads a registry that holds memento functions, itself among them)
+    REC.hit("viareg", x)
+    return len(HANDLERS) + x
+
+HANDLERS = {"viareg": viareg, "report": report}
+
 import %(pkg)s.other as cfg
 import %(pkg)s.other2 as cfg2
 
@@ -368,7 +376,7 @@ def rebind_child(arg):
         except Exception as e:
             return "raise:%s: %s" % (type(e).__name__, str(e)[:120])
 
-    res = {"before": {n: ask(n) for n in ("report", "total", "viaattr", "twice", "declared") if hasattr(getattr(main, n), "version")}}
+    res = {"before": {n: ask(n) for n in ("report", "total", "viaattr", "twice", "declared", "viareg") if hasattr(getattr(main, n), "version")}}
     if arg.get("live"):
         if arg.get("call_first"):
             main.total(3)
@@ -379,9 +387,9 @@ def rebind_child(arg):
             linecache.cache[name] = (len(src), None, src.splitlines(True), name)
             exec(compile(src, name, "exec"), main.__dict__)
             if k + 1 < len(stmts):  # every version is asked between two statements
-                res.setdefault("between", []).append({n: ask(n) for n in ("report", "total", "viaattr", "twice", "declared")
+                res.setdefault("between", []).append({n: ask(n) for n in ("report", "total", "viaattr", "twice", "declared", "viareg")
                                                       if hasattr(getattr(main, n), "version")})
-    for n in (["twice", "declared", "total", "viaattr", "report"] if arg.get("order") else ["report", "viaattr", "total", "twice", "declared"]):
+    for n in (["twice", "declared", "viareg", "total", "viaattr", "report"] if arg.get("order") else ["report", "viaattr", "total", "twice", "declared", "viareg"]):
         if not hasattr(getattr(main, n), "version"):
             continue
         try:
